@@ -1,0 +1,10 @@
+//go:build verif
+// +build verif
+
+package utility
+
+// Verification hook H1: GetTime() loops forever on NTP when the host is
+// offline. With the verif tag the offset stays zero and no NTP query is made.
+func init() {
+	ntpInitFlag = true
+}
